@@ -18,6 +18,7 @@ def run(chk):
     ]
     ok = chk.check_theorems()
     rc.run_runner_check(chk, "C05", "proj_C05", OPTS, theorems_ok=ok)
+    rc.slow_hooks_part(chk, "C05", OPTS)
     if ok:
         import source_tie
         source_tie.runner_ties(chk)
